@@ -161,11 +161,24 @@ Theorem C17_read_only_mode_ends_with_transaction :
 Proof. exact read_only_ends. Qed.
 Print Assumptions C17_read_only_mode_ends_with_transaction.
 
+(* inside a READ ONLY transaction every DML statement (one table, every table registered, several tables) is refused
+   and changes nothing: database, other sessions, the session's own reads; the transaction stays open and READ ONLY *)
+Theorem C17_read_only_refuses_dml_without_effect :
+  forall data wop (apply : wop -> data -> option data) mop mtabs mwrites (mexec : mop -> list data -> mres data) st s q,
+    tx (ss st s) = true -> ro (ss st s) = true -> holding data (ss st s) -> is_dml wop mop mwrites q = true ->
+    let st' := fst (step apply mtabs mwrites mexec st s q) in
+    snd (step apply mtabs mwrites mexec st s q) = RErr /\ (forall t, db st' t = db st t) /\
+    (forall s', s' <> s -> ss st' s' = ss st s') /\
+    (forall t, view st' s t = view st s t) /\ tx (ss st' s) = true /\ ro (ss st' s) = true.
+Proof. exact read_only_refuses_dml. Qed.
+Print Assumptions C17_read_only_refuses_dml_without_effect.
+
 (* When transactions of different sessions do not overlap in time (the history is a concatenation of blocks, by any
    sessions: single autocommit statements - reads, single- and multi-table writes, unfiltered DELETE, failing and
    savepoint statements, TRUNCATE and other DDL -, and transactions opened by START TRANSACTION [READ ONLY] or by
    SET autocommit = 0, with any such statements as body, optionally an implicit-commit statement as the last one,
-   ended by COMMIT or ROLLBACK [and SET autocommit = 1]), the final database AND every statement result equal running
+   ended by COMMIT or ROLLBACK [and SET autocommit = 1]; SET autocommit = 0; body; SET autocommit = 1, which commits),
+   the final database AND every statement result equal running
    the committed transactions one after another directly on the database; READ ONLY bodies have their DML rejected and
    change nothing.  Guard: no statement between an implicit commit and the end of its block (see the refutation below). *)
 Theorem C17_serial_equivalence_nonoverlapping :
@@ -226,6 +239,7 @@ Example C17_nonvacuous :
   snd (crun (init tabs0) (flat_map flatten example_blocks)) =
   [ROk; ROk; RRows [(1%Z, 10%Z); (2%Z, 20%Z)]; ROk; RRows [(1%Z, 10%Z); (2%Z, 20%Z)];
    ROk; ROk; ROk; ROk; ROk; RErr; ROk; ROk; ROk; ROk; RErr;
-   RRows [(1%Z, 11%Z)]; ROk; ROk; ROk; RRows [(11%Z, 10%Z); (12%Z, 20%Z); (13%Z, 30%Z)]].
+   RRows [(1%Z, 11%Z)]; ROk; ROk; ROk; RRows [(11%Z, 10%Z); (12%Z, 20%Z); (13%Z, 30%Z)];
+   ROk; ROk; RRows [(5%Z, 50%Z)]; ROk; RRows [(5%Z, 50%Z)]].
 Proof. exact nonvacuous_example. Qed.
 Print Assumptions C17_nonvacuous.
